@@ -5489,6 +5489,12 @@ class State:
                 hole_card_statuses = ()
 
         if (
+                self.street is None
+                and (not status or not all(hole_card_statuses))
+        ):
+            raise ValueError('Non-standard showdown must show all cards.')
+
+        if (
                 self.mode == Mode.TOURNAMENT
                 and status
                 and sum(map(bool, cards)) < len(self.hole_cards[player_index])
@@ -5518,12 +5524,6 @@ class State:
             status
             or (not cards and not hole_cards and not hole_card_statuses)
         )
-
-        if (
-                self.street is None
-                and (not status or not all(hole_card_statuses))
-        ):
-            raise ValueError('Non-standard showdown must show all cards.')
 
         return status, cards, hole_cards, hole_card_statuses, player_index
 
